@@ -511,7 +511,8 @@ def inline_single_use_locals(fnode):
                 banned |= set(n.names)
         # names read inside nested scopes / comprehensions are left alone
         for n in own:
-            if isinstance(n, (ast.Lambda, ast.FunctionDef, ast.AsyncFunctionDef, ast.ListComp, ast.SetComp, ast.DictComp, ast.GeneratorExp)):
+            # (list / set / dict comprehensions are evaluated on the spot: a pure expression may be moved into them)
+            if isinstance(n, (ast.Lambda, ast.FunctionDef, ast.AsyncFunctionDef, ast.GeneratorExp)):
                 banned |= {x.id for x in ast.walk(n) if isinstance(x, ast.Name)}
         written = _written_names(own)
         stores = {}
@@ -604,8 +605,27 @@ def inline_single_use_locals(fnode):
     return total
 
 
+# ---------------------------------------------------------------------------------------------------------------- N7
+class _MaskSelect(ast.NodeTransformer):
+    """N7 - `np.compress(mask, x)` / `np.extract(mask, x)` with a mask computed from x itself (it has x's shape) is `x[mask]`"""
+    def __init__(self):
+        self.count = 0
+
+    def visit_Call(self, n):
+        self.generic_visit(n)
+        if isinstance(n.func, ast.Attribute) and n.func.attr in ('compress', 'extract') and isinstance(n.func.value, ast.Name) and \
+                n.func.value.id in ('np', 'numpy') and len(n.args) == 2 and not n.keywords and isinstance(n.args[1], ast.Name) and \
+                any(isinstance(x, ast.Name) and x.id == n.args[1].id for x in ast.walk(n.args[0])):
+            self.count += 1
+            return ast.copy_location(ast.Subscript(value=n.args[1], slice=n.args[0], ctx=ast.Load()), n)
+        return n
+
+
 def normalise_module(tree):
     n = 0
+    ms = _MaskSelect()
+    ms.visit(tree)
+    n += ms.count
     for node in ast.walk(tree):
         if isinstance(node, (ast.FunctionDef, ast.AsyncFunctionDef)):
             n += counted_while_to_for(node)
